@@ -136,8 +136,8 @@ def norm_kind(fn, bb, t):
             return "call:unwrap"
         if re.search(r"call:(ids::)?index(_mut)?$", k):
             return "call:index"
-        if k == "call:" + "traits::index":
-            return "call:str-index"
+        if k == "call:" + "traits::index" or re.search(r"call:(str::)?split_at$|call:<impl str>::split_at$", k):
+            return "call:str-index"       # slicing a str at byte positions: `&s[a..b]`, `s.split_at(k)` (same char-boundary / bounds obligation)
         return k
     return None
 
